@@ -146,6 +146,16 @@ func Execute(c *Case, opt ExecOptions) (rr RunResult) {
 			}
 		}
 	}
+	if !opt.Parallel {
+		// goroutines the library started outside a run must have ended by now
+		for i := 0; i < 200 && simrt.ForeignLive() > 0; i++ {
+			runtime.Gosched()
+		}
+		if n := simrt.ForeignLive(); n > 0 {
+			rr.HarnessErr = fmt.Sprintf("%d goroutine(s) started by library code outside a simulated run are still alive (a background worker?); the simulator cannot schedule goroutines that are not tasks", n)
+			return rr
+		}
+	}
 	old := debug.SetGCPercent(-1)
 	var stats simrt.Stats
 	var sw []simrt.Switch
